@@ -867,7 +867,10 @@ class Exec:
                     return True
             except (TypeError, ValueError):
                 pass
-            return False
+            # `while (a && b)` in unoptimised shape: the tests sit in the blocks after the head (the exiting block is their join).  Walk
+            # from the head through blocks without side effects, every branch decided by concrete values: reaching the outside of the
+            # loop or the first block that does something means the head is decided
+            return self._walk_tests(p, b, pred, L_) is not None
         if t.op != "br" or not t.get("cond"):
             return False
         q = p.clone()
@@ -894,6 +897,46 @@ class Exec:
             succ = t.get("succ")
             return (succ[0] if dec else succ[1]) not in self.heads[b]["blocks"]
         return dec is not None
+
+    def _walk_tests(self, p, b, pred, L_):
+        """-> "stay" / "leave" if the side-effect-free blocks from the head on are decided by concrete values, else None"""
+        f = self.f
+        q = p.clone()
+        cur, prv = b, pred
+        for _ in range(8):
+            for iid in f.blocks[cur].insts:
+                I = f.insts[iid]
+                if I.op == "phi":
+                    for inc, pb in I.get("inc"):
+                        if pb == prv:
+                            q.env[("i", I.id)] = self.val(q, tuple(inc))
+                    continue
+                if I.is_dbg() or I.is_lifetime() or I.op in ("br", "ret", "switch", "unreachable"):
+                    continue
+                if I.op in ("store", "call"):
+                    return "stay" if cur != b else None
+                try:
+                    self._step(q, I)
+                except Broken:
+                    return None
+            t = f.term(cur)
+            if t.op != "br":
+                return None
+            succ = t.get("succ")
+            if not t.get("cond"):
+                nxt = succ[0]
+            else:
+                c = q.env.get(t.ops[0]) if t.ops[0][0] == "i" else self.val(q, t.ops[0])
+                dec = self._decide(q, c, ranges=False)
+                if dec is None:
+                    return None
+                nxt = succ[0] if dec else succ[1]
+            if nxt not in L_["blocks"]:
+                return "leave"
+            if nxt == b:
+                return None
+            cur, prv = nxt, cur
+        return None
 
     def _header_split(self, p, b, pred):
         """(symbol, candidate values) if the undecided header test compares linear forms over one symbol of small finite range"""
